@@ -59,6 +59,9 @@ def gen_scalar(rng, width=None):
     if k < 0.02:
         # strings all the same: members of a (str, Enum) mix-in, a str subclass with its own str()
         return rng.choice([Colour.RED, Colour.DARK, Loud("abc"), Loud("")])
+    if k < 0.04:
+        # ints all the same: members of an IntEnum of the application (json.dumps writes 200), an IntFlag
+        return rng.choice([Status.OK, Status.GONE, Perm.R | Perm.W, Perm.R])
     if k < 0.25:
         return gen_str(rng)
     if k < 0.5:
@@ -161,6 +164,16 @@ def sort_key(k):
     return (0, k) if isinstance(k, (int, float)) else (1, k)
 
 
+class Status(enum.IntEnum):
+    OK = 200
+    GONE = 410
+
+
+class Perm(enum.IntFlag):
+    R = 4
+    W = 2
+
+
 class Colour(str, enum.Enum):
     """the classic mix-in: members ARE strings (json.dumps writes "red")"""
     RED = "red"
@@ -185,6 +198,8 @@ def typed(o):
         return ('l', [typed(v) for v in o])
     if isinstance(o, str):
         return ('str', str.__str__(o) if type(o) is not str else o)
+    if isinstance(o, int) and not isinstance(o, bool):
+        return ('int', int.__repr__(o))       # (members of an IntEnum / IntFlag are read back as the ints they are)
     return (type(o).__name__, repr(o))
 
 
@@ -269,6 +284,20 @@ def judge(ctx, obj, jm, case):
         ctx.count("results_used_as_text_after_partial_iteration")
         if whole != txt:
             ctx.violation("text-after-partial-iteration-differs", {"got": whole[:150], "expected": txt[:150]}, case)
+    if len(txt) % 4 == 2:
+        # the caller takes the text of a result as an object of its own and adds to it; the result stays what it was
+        try:
+            kept = pp(obj, no_color=True)
+            before = str(kept)
+            mine = kept.get_ch_text()
+            mine += " -- seen"
+            after = str(kept)
+        except Exception as err:
+            ctx.violation("printing-raises", {"type": type(err).__name__, "msg": str(err)[:150]}, case)
+            return
+        ctx.count("texts_taken_out_of_a_result_and_extended")
+        if before != txt or after != txt or str(mine) != txt + " -- seen":
+            ctx.violation("text-taken-from-a-result-shares-its-state", {"after": after[-60:], "copy": str(mine)[-60:]}, case)
     if len(txt) % 2 == 1:
         # one result object is used as a whole text first and read line by line afterwards
         try:
